@@ -52,4 +52,129 @@ theorem forLoop_run (ctx : Ctx) (cond incr : Stage) (fc fn : Bytes → Bytes →
       | zero => simp [iterateWhile, hf, forResult, pack, join, joinTail]
       | succ k => simp [iterateWhile, hf, forResult, pack, join, joinTail]
 
+/-! ## @range -/
+
+theorem itoa_ne_nil (v : Int) : itoa v ≠ [] := by
+  unfold itoa
+  split
+  · simp
+  · simp [natDigits, Nat.toDigits_ne_nil]
+
+theorem range_guard_eq (incr i stop : Int) :
+    ((decide (incr > 0) && decide (i < stop)) || (decide (incr < 0) && decide (i > stop))) =
+      before incr i stop := rfl
+
+/-- What the loop of `@range` has written once the specification's remaining terms are added. -/
+def rangeResult (sb : Sb) (k : Nat) (r : Option Sb) : Option (List Int) → Prop
+  | none => r = none
+  | some ys => ∃ sb', r = some sb' ∧
+      sb'.str = sb.str ++ (if k = 0 then pack (ys.map itoa) else joinTail [NUL] (ys.map itoa))
+
+theorem rangeLoop_run (start stop incr : Int) (hs1 : minInt64 ≤ stop) (hs2 : stop ≤ maxInt64)
+    (hi1 : minInt64 ≤ incr) (hi2 : incr ≤ maxInt64) :
+    ∀ (fuel k : Nat) (i : Int) (sb : Sb), i = start + (k : Int) * incr →
+      minInt64 ≤ i → i ≤ maxInt64 → k ≤ Gen.maxIterations → Gen.maxIterations + 2 ≤ fuel + k →
+      SbWf sb → (sb.len > 0 ↔ k > 0) →
+      ∃ r, rangeLoop fuel i stop incr k sb = .ok r ∧
+        rangeResult sb k r (progWhile start stop incr (Gen.maxIterations - k) k) := by
+  intro fuel
+  induction fuel with
+  | zero => intro k i sb _ _ _ h1 h2; omega
+  | succ fuel ih =>
+    intro k i sb hi hlo hhi hk hf hwf hlen
+    unfold rangeLoop
+    simp only [range_guard_eq]
+    by_cases hb : before incr i stop = true
+    · simp only [hb, if_true]
+      -- the builder after this round
+      have hsb2 : ∀ sb2 : Sb, sb2 = (if sb.len > 0 then sb.write ArraySeparatorString else sb).write (itoa i) →
+          SbWf sb2 ∧ sb2.len > 0 ∧
+          sb2.str = sb.str ++ (if k = 0 then itoa i else [NUL] ++ itoa i) := by
+        intro sb2 h2
+        have hne : (itoa i).length > 0 := List.length_pos_iff.mpr (itoa_ne_nil i)
+        by_cases hl : sb.len > 0
+        · have hk0 : k ≠ 0 := by have := hlen.mp hl; omega
+          simp only [hl, if_true] at h2
+          have hw := sbWf_write _ (itoa i) (sbWf_write sb ArraySeparatorString hwf)
+          subst h2
+          refine ⟨hw, ?_, ?_⟩
+          · rw [sb_len_eq _ hw]; simp; omega
+          · simp [hk0, ArraySeparatorString, ArraySeparator, NUL]
+        · have hk0 : k = 0 := by
+            cases k with
+            | zero => rfl
+            | succ k => exact absurd (hlen.mpr (by omega)) hl
+          simp only [hl, if_false] at h2
+          have hw := sbWf_write sb (itoa i) hwf
+          subst h2
+          refine ⟨hw, ?_, ?_⟩
+          · rw [sb_len_eq _ hw]; simp; omega
+          · simp [hk0]
+      obtain ⟨hw2, hl2, hs2'⟩ := hsb2 _ rfl
+      by_cases hm : k + 1 > Gen.maxIterations
+      · refine ⟨none, by simp [hm], ?_⟩
+        have e : Gen.maxIterations - k = 0 := by omega
+        rw [e]; subst hi
+        simp [progWhile, hb, rangeResult]
+      · simp only [hm, if_false]
+        have e : Gen.maxIterations - k = (Gen.maxIterations - (k + 1)) + 1 := by omega
+        have hb' := hb
+        simp only [before, Bool.or_eq_true, Bool.and_eq_true, decide_eq_true_eq] at hb'
+        have hnext : start + ((k + 1 : Nat) : Int) * incr = i + incr := by
+          subst hi; simp [Int.add_mul]; omega
+        by_cases hov : ((decide (incr > 0) && decide (i > wrap64 (maxInt64 - incr))) ||
+            (decide (incr < 0) && decide (i < wrap64 (minInt64 - incr)))) = true
+        · -- the next term is beyond the int64 range, hence beyond `stop`
+          refine ⟨some ((if sb.len > 0 then sb.write ArraySeparatorString else sb).write (itoa i)),
+            by simp only [hov, if_true], ?_⟩
+          have hnb : before incr (start + ((k + 1 : Nat) : Int) * incr) stop = false := by
+            rw [hnext]
+            simp only [Bool.or_eq_true, Bool.and_eq_true, decide_eq_true_eq] at hov
+            rcases hov with ⟨hp, hgt⟩ | ⟨hp, hlt⟩
+            · rw [wrap64_id _ (by unfold minInt64 maxInt64 at *; omega) (by unfold maxInt64 at *; omega)] at hgt
+              simp [before]; omega
+            · rw [wrap64_id _ (by unfold minInt64 maxInt64 at *; omega) (by unfold minInt64 maxInt64 at *; omega)] at hlt
+              simp [before]; omega
+          have hp : progWhile start stop incr (Gen.maxIterations - (k + 1)) (k + 1) = some [] := by
+            cases Gen.maxIterations - (k + 1) <;> simp only [progWhile, hnb, Bool.false_eq_true, if_false]
+          rw [e]
+          have hbi : before incr (start + (k : Int) * incr) stop = true := by rw [← hi]; exact hb
+          simp only [progWhile, hbi, if_true, hp, Option.map_some, rangeResult]
+          refine ⟨_, rfl, ?_⟩
+          rw [hs2', ← hi]
+          by_cases hk0 : k = 0 <;> simp [hk0, pack, join, joinTail]
+        · simp only [hov]
+          have hov' : ¬ ((0 < incr ∧ wrap64 (maxInt64 - incr) < i) ∨ (incr < 0 ∧ i < wrap64 (minInt64 - incr))) := by
+            simpa [Bool.or_eq_true, Bool.and_eq_true, decide_eq_true_eq] using hov
+          have hin : minInt64 ≤ i + incr ∧ i + incr ≤ maxInt64 := by
+            rcases hb' with ⟨hp, _⟩ | ⟨hp, _⟩
+            · have h1 : ¬ wrap64 (maxInt64 - incr) < i := fun h => hov' (Or.inl ⟨hp, h⟩)
+              rw [wrap64_id _ (by unfold minInt64 maxInt64 at *; omega) (by unfold maxInt64 at *; omega)] at h1
+              constructor <;> omega
+            · have h1 : ¬ i < wrap64 (minInt64 - incr) := fun h => hov' (Or.inr ⟨hp, h⟩)
+              rw [wrap64_id _ (by unfold minInt64 maxInt64 at *; omega) (by unfold minInt64 maxInt64 at *; omega)] at h1
+              constructor <;> omega
+          rw [wrap64_id _ hin.1 hin.2]
+          obtain ⟨r, hr1, hr2⟩ := ih (k + 1) (i + incr) _ hnext.symm hin.1 hin.2 (by omega) (by omega) hw2
+            ⟨fun _ => by omega, fun _ => hl2⟩
+          refine ⟨r, by simpa using hr1, ?_⟩
+          rw [e]
+          have hbi : before incr (start + (k : Int) * incr) stop = true := by rw [← hi]; exact hb
+          simp only [progWhile, hbi, if_true]
+          cases hp : progWhile start stop incr (Gen.maxIterations - (k + 1)) (k + 1) with
+          | none => rw [hp] at hr2; simpa [rangeResult] using hr2
+          | some ys =>
+            rw [hp] at hr2
+            obtain ⟨sb', h1, h2⟩ := hr2
+            refine ⟨sb', h1, ?_⟩
+            rw [h2, hs2', ← hi]
+            by_cases hk0 : k = 0 <;> simp [hk0, pack, join_cons_tail, joinTail]
+    · have hbf : before incr i stop = false := by simpa using hb
+      refine ⟨some sb, by simp [hbf], ?_⟩
+      have hbi : before incr (start + (k : Int) * incr) stop = false := by rw [← hi]; exact hbf
+      have hp : progWhile start stop incr (Gen.maxIterations - k) k = some [] := by
+        cases Gen.maxIterations - k <;> simp only [progWhile, hbi, Bool.false_eq_true, if_false]
+      rw [hp]
+      exact ⟨sb, rfl, by by_cases hk0 : k = 0 <;> simp [hk0, pack, join, joinTail]⟩
+
 end Rare.C17
